@@ -321,10 +321,10 @@ def run(tier, seed, replay):
     if not okh:
         V.violation('build', dict(kind='build', log=logh), no_input=True)
         return V.finish('proof', dict(obligations=1, discharged=0, checker_cmd='cargo build', trusted_base=[], explanation='build failed'), assumptions)
-    okl, logl, dtl = vlib.build_lean(['driver', 'Rivia.Props.C02', 'Rivia.Props.C02M'])
+    okl, logl, dtl = vlib.build_lean(['driver', 'Rivia.Props.C02', 'Rivia.Props.C02M', 'Rivia.Props.C02R'])
     proof_broken = []
     if okl:
-        A = vlib.audit('Rivia.Props.C02,Rivia.Props.C02M')
+        A = vlib.audit('Rivia.Props.C02,Rivia.Props.C02M,Rivia.Props.C02R')
         if not A['ok']:
             proof_broken += A['problems']
     else:
@@ -332,7 +332,7 @@ def run(tier, seed, replay):
         proof_broken.append('lake build Rivia.Props.C02 failed: ' + logl[-1000:])
     lc = None
     if okl and tier == 'thorough':
-        okc, logc, dtc = vlib.leanchecker('Rivia.Props.C02,Rivia.Props.C02M')
+        okc, logc, dtc = vlib.leanchecker('Rivia.Props.C02,Rivia.Props.C02M,Rivia.Props.C02R')
         lc = dict(ok=okc, seconds=round(dtc, 1), scope=logc[:80])
         if not okc:
             proof_broken.append('leanchecker rejects Rivia.Props.C02: ' + logc[-500:])
@@ -403,6 +403,11 @@ def run(tier, seed, replay):
                 elif not (same_result(so, zo) and sd == zd):
                     if t0[0] in ('copy', 'copy_b') and vlib._copy_into_itself(req, 'x ## cwd ' + parse(pre)[0]):
                         model_alive = False
+                    elif t0[0] in ('copy', 'copy_b') and so.startswith('err') and zo.startswith('err'):
+                        # a tree copy that fails on both sides: which entries were written before the error depends on
+                        # the directory iteration order (read_dir order vs the model's sorted order)
+                        cuts['failed_copy_partial_effects'] = cuts.get('failed_copy_partial_effects', 0) + 1
+                        model_alive = False
                     elif lean_cls == 'S8_move_links' and same_result(so, zo):
                         # moved links: the model re-derives targets from recomputed link texts; texts written by earlier
                         # renames (chains of moves) are not tracked exactly - outside the theorem's domain (S8), not asserted
@@ -416,6 +421,9 @@ def run(tier, seed, replay):
             seen.add(hash((pre, req)))
             same_out = same_result(so, mo)
             same_tree = sd == md
+            if t0[0] in ('copy', 'copy_b') and so.startswith('err') and mo.startswith('err') and not same_tree:
+                cuts['failed_copy_partial_effects'] = cuts.get('failed_copy_partial_effects', 0) + 1
+                break       # both fail; the partial effects before the error are iteration-order dependent on each backend
             if not (same_out and same_tree):
                 cls = lean_cls if lean_cls in LEAN_CLASSES else classify(req, so, mo, pre, mem_pre, sd, md)
                 cls = {'S10_cwd_removed': 'cwd_removed'}.get(cls, cls)
